@@ -1253,6 +1253,59 @@ v("C16", "decorator-captures-range-var", "intercept.go",
 v("C16", "stream-info-of-first-entry", "intercept.go",
   """				FullMethod:     fmt.Sprintf("/%s/%s", svcDesc.ServiceName, sd.StreamName),""", """				FullMethod:     fmt.Sprintf("/%s/%s", svcDesc.ServiceName, svcDesc.ServiceName),""", "R3", "full-method", "method name replaced by the service name")
 
+# ------------------------------------------------------------------ C18
+v("C18", "no-reset", "internal/misc.go", "	pmOut.Reset()\n", "", "R1", "reset-before-merge", "copy merges into previous content")
+v("C18", "merge-error-dropped", "internal/misc.go",
+  "	return dynamic.TryMerge(pmOut, pmIn)", "	_ = dynamic.TryMerge(pmOut, pmIn)\n	return nil", "R1", "merge-error-returned", "type mismatch silently ignored")
+v("C18", "non-proto-shallow", "internal/misc.go",
+  """	pm, ok := m.(proto.Message)
+	if !ok {
+		return nil, fmt.Errorf("value to clone is not a proto.Message: %T; use a custom cloner", m)
+	}""", """	pm, ok := m.(proto.Message)
+	if !ok {
+		return m, nil
+	}""", "R2", "not-proto", "non-proto values are returned as is (shared)")
+v("C18", "clonefunc-sets-source", "inprocgrpc/cloner.go",
+  """		in, err := fn(in) // deep copy input
+		if err != nil {
+			return err
+		}
+""", """		if _, err := fn(in); err != nil { // deep copy input
+			return err
+		}
+""", "R3", "assigns-the-clone", "Copy assigns the source's own value: shallow copy")
+v("C18", "clonefunc-no-type-check", "inprocgrpc/cloner.go",
+  """		if src.Type() != dest.Type() {
+			return fmt.Errorf("incompatible types: %v != %v", src.Type(), dest.Type())
+		}
+""", "", "R2", "types-equal", "mismatched destination type panics in reflect")
+v("C18", "codec-unmarshal-other-bytes", "inprocgrpc/cloner.go",
+  """		if b, err := codec.Marshal(in); err != nil {
+			return err
+		} else if err := codec.Unmarshal(b, out); err != nil {
+			return err
+		}
+		return nil""", """		b, err := codec.Marshal(in)
+		if err != nil {
+			return err
+		}
+		_ = codec.Unmarshal(b, out)
+		return nil""", "R3", "codec-errors-returned", "decode error dropped: copy reported as done")
+v("C18", "copyfunc-clone-returns-source", "inprocgrpc/cloner.go",
+  """		clone := reflect.New(reflect.TypeOf(in).Elem()).Interface()
+		if err := fn(clone, in); err != nil {
+			return nil, err
+		}
+		return clone, nil""", """		clone := reflect.New(reflect.TypeOf(in).Elem()).Interface()
+		if err := fn(clone, in); err != nil {
+			return nil, err
+		}
+		return in, nil""", "R3", "copy-into-fresh", "Clone returns the source itself")
+v("C18", "protocloner-copy-swapped", "inprocgrpc/cloner.go",
+  "		return internal.CopyMessage(out, in)", "		return internal.CopyMessage(in, out)", "R3", "delegates-to-primitive", "copy direction reversed: the source is overwritten")
+v("C18", "copy-resets-source", "internal/misc.go",
+  "	pmOut.Reset()\n", "	pmOut.Reset()\n	defer pmIn.Reset()\n", "R4", "source-read-only", "the source message is cleared after copying")
+
 
 def main():
     if os.path.isdir(OUT):
